@@ -312,6 +312,26 @@ func c06run(r *ev.Run) {
 		}
 		run(b.String())
 	})
+	// long values: around the buffer sizes a reader or a scanner may have (4 KiB, 64 KiB) and beyond, in one-byte and
+	// two-byte characters, with and without characters that need quoting or escaping
+	for _, unit := range []string{"a", "é", "a b", `"`, "\\n"[:1] + "x"} {
+		for _, total := range []int{255, 256, 4095, 4096, 4097, 65535, 65536, 65537, 1 << 17} {
+			s := strings.Repeat(unit, total/len(unit)+1)[:total/len(unit)*len(unit)]
+			n := r.Eval()
+			r.Trans(int64(len(c06templates)) + 3)
+			r.State(astx.HashString(s), true)
+			r.Sample(n, func() interface{} { return fmt.Sprintf("%q repeated to %d bytes", unit, len(s)) })
+			for _, f := range c06eval(c06Case{S: "", B: []byte(s)}) {
+				if len(f.Witness) > 200 {
+					f.Witness = f.Witness[:100] + fmt.Sprintf("… (%d bytes of %q)", len(s), unit)
+				}
+				if len(f.Detail) > 600 {
+					f.Detail = f.Detail[:300] + " … " + f.Detail[len(f.Detail)-200:]
+				}
+				r.Report(f)
+			}
+		}
+	}
 	// keywords in case patterns
 	var kws []string
 	for k := range gram.Keywords {
